@@ -53,6 +53,8 @@ type Backend struct {
 	Hits   []BackendHit
 	// Respond, when set, writes the response (default: 200 with a marker body).
 	Respond func(w http.ResponseWriter, r *http.Request)
+	// BeforeBody, when set, runs after the request head has arrived and before the upstream reads the body
+	BeforeBody func(r *http.Request)
 }
 
 const BackendMarker = "UPSTREAM-CONTENT-MARKER"
@@ -65,6 +67,12 @@ func NewTLSBackend(name string) *Backend { return newBackend(name, true) }
 func newBackend(name string, tlsH2 bool) *Backend {
 	b := &Backend{Name: name}
 	b.Server = httptest.NewUnstartedServer(http.HandlerFunc(func(w http.ResponseWriter, r *http.Request) {
+		b.mu.Lock()
+		bb := b.BeforeBody
+		b.mu.Unlock()
+		if bb != nil {
+			bb(r)
+		}
 		body, _ := io.ReadAll(r.Body)
 		hit := BackendHit{Proto: r.Proto, Backend: name, Method: r.Method, URI: r.RequestURI, Path: r.URL.Path, Query: r.URL.RawQuery, Host: r.Host,
 			Header: r.Header.Clone(), Body: body, TE: r.TransferEncoding, CLen: r.ContentLength}
@@ -579,9 +587,9 @@ func (e *ProxyEnv) DoRaw(raw string) (*Response, error) {
 	}
 	defer conn.Close()
 	conn.SetDeadline(time.Now().Add(20 * time.Second))
-	if _, err := io.WriteString(conn, raw); err != nil {
-		return nil, err
-	}
+	// (a server may answer and close before it has read the whole of a large request: a failing write is
+	// then the server's doing, and what it answered — if anything — is still the observation)
+	_, werr := io.WriteString(conn, raw)
 	br := bufio.NewReader(conn)
 	var interim []int
 	var res *http.Response
@@ -589,6 +597,10 @@ func (e *ProxyEnv) DoRaw(raw string) (*Response, error) {
 		// interim (1xx, other than 101) responses are skipped the way any HTTP client skips them; the
 		// final response is what the client acts on
 		res, err = http.ReadResponse(br, nil)
+		if err != nil && werr != nil {
+			res = &http.Response{StatusCode: 0, Header: http.Header{}, Body: io.NopCloser(strings.NewReader("(the server closed the connection while the request was being sent: " + werr.Error() + ")"))}
+			break
+		}
 		if err != nil {
 			return nil, err
 		}
